@@ -95,7 +95,13 @@ type G struct {
 	steps     int
 
 	quiesceTimers bool
+	tag           any
 }
+
+// Tag is a goroutine-local value (inherited by goroutines it starts); harnesses use it to
+// attribute injected faults to the operation in whose context they fired.
+func (g *G) Tag() any     { return g.tag }
+func (g *G) SetTag(v any) { g.tag = v }
 
 func (g *G) ID() int      { return g.id }
 func (g *G) Name() string { return g.name }
@@ -296,6 +302,9 @@ func (s *Sim) stratString() string {
 func (s *Sim) newG(name string) *G {
 	g := &G{id: len(s.gs), name: name, wake: make(chan struct{}, 1), exited: make(chan struct{})}
 	g.prio = 1 + s.srng.Intn(1<<20)
+	if s.cur != nil {
+		g.tag = s.cur.tag
+	}
 	s.gs = append(s.gs, g)
 	return g
 }
